@@ -40,6 +40,46 @@ impl ToModel for QSearch {
     }
 }
 
+/// a second error type whose HTTP rendering is NOT "400 + Display text": 422 with a JSON body.
+/// An extractor that rebuilds the rejection from the error's text instead of carrying the error
+/// itself shows up as a different status / body.
+#[derive(Debug, Clone, PartialEq)]
+pub struct Tea(pub String);
+impl std::fmt::Display for Tea {
+    fn fmt(&self, f: &mut std::fmt::Formatter<'_>) -> std::fmt::Result {
+        write!(f, "tea: {}", self.0)
+    }
+}
+impl deserr::DeserializeError for Tea {
+    fn error<V: deserr::IntoValue>(_self_: Option<Self>, error: deserr::ErrorKind<V>, location: deserr::ValuePointerRef) -> std::ops::ControlFlow<Self, Self> {
+        let j = deserr::take_cf_content(<JsonError as deserr::DeserializeError>::error::<V>(None, error, location));
+        std::ops::ControlFlow::Break(Tea(j.to_string()))
+    }
+}
+impl deserr::MergeWithError<Tea> for Tea {
+    fn merge(_self_: Option<Self>, other: Tea, _l: deserr::ValuePointerRef) -> std::ops::ControlFlow<Self, Self> {
+        std::ops::ControlFlow::Break(other)
+    }
+}
+impl Tea {
+    fn body(&self) -> String {
+        json!({"code": "unprocessable", "message": self.0}).to_string()
+    }
+}
+impl actix_web::ResponseError for Tea {
+    fn status_code(&self) -> actix_web::http::StatusCode {
+        actix_web::http::StatusCode::UNPROCESSABLE_ENTITY
+    }
+    fn error_response(&self) -> actix_web::HttpResponse<actix_web::body::BoxBody> {
+        actix_web::HttpResponseBuilder::new(self.status_code()).content_type("application/json").body(self.body())
+    }
+}
+impl IntoResponse for Tea {
+    fn into_response(self) -> axum::response::Response {
+        (http::StatusCode::UNPROCESSABLE_ENTITY, [("content-type", "application/json")], self.body()).into_response()
+    }
+}
+
 #[derive(Debug, Clone, PartialEq)]
 enum Obs {
     /// extraction succeeded with this value
@@ -83,12 +123,60 @@ async fn actix_resp(e: actix_web::Error) -> Obs {
     Obs::Rejected(status, ct, body)
 }
 
+/// the same differential with the custom error type `Tea`
+async fn actix_json_tea<T: Deserr<Tea> + ToModel + 'static>(r: &Req) -> (Obs, Obs, Class) {
+    let (req, mut pl) = actix_req(r);
+    let got = match AwebJson::<T, Tea>::from_request(&req, &mut pl).await {
+        Ok(v) => Obs::Ok(v.into_inner().to_model()),
+        Err(e) => {
+            let carried = e.as_error::<Tea>().cloned();
+            match actix_resp(e).await {
+                Obs::Rejected(s, c, b) if s == 422 && carried.is_none() => Obs::Rejected(s, c, [b, b" <but the actix error does not carry the deserr error>".to_vec()].concat()),
+                o => o,
+            }
+        }
+    };
+    let (req, mut pl) = actix_req(r);
+    let (want, class) = match actix_web::web::Json::<J>::from_request(&req, &mut pl).await {
+        Err(e) => (actix_resp(e).await, Class::FrameworkRejection),
+        Ok(doc) => match deserr::deserialize::<T, _, Tea>(doc.into_inner()) {
+            Ok(v) => (Obs::Ok(v.to_model()), Class::WellTyped),
+            Err(e) => (Obs::Rejected(422, Some("application/json".into()), e.body().into_bytes()), Class::DeserrFailure),
+        },
+    };
+    (got, want, class)
+}
+
+async fn axum_json_tea<T: Deserr<Tea> + ToModel + 'static>(r: &Req) -> (Obs, Obs, Class) {
+    let got = match AxumJson::<T, Tea>::from_request(axum_req(r), &()).await {
+        Ok(v) => Obs::Ok(v.into_inner().to_model()),
+        Err(rej) => axum_resp(rej.into_response()).await,
+    };
+    let (want, class) = match axum::Json::<J>::from_request(axum_req(r), &()).await {
+        Err(rej) => (axum_resp(rej.into_response()).await, Class::FrameworkRejection),
+        Ok(axum::Json(doc)) => match deserr::deserialize::<T, _, Tea>(doc) {
+            Ok(v) => (Obs::Ok(v.to_model()), Class::WellTyped),
+            Err(e) => (Obs::Rejected(422, Some("application/json".into()), e.body().into_bytes()), Class::DeserrFailure),
+        },
+    };
+    (got, want, class)
+}
+
 async fn actix_json<T: Deserr<JsonError> + ToModel + 'static>(r: &Req) -> (Obs, Obs, Class) {
     // the extractor under test
     let (req, mut pl) = actix_req(r);
     let got = match AwebJson::<T, JsonError>::from_request(&req, &mut pl).await {
         Ok(v) => Obs::Ok(v.into_inner().to_model()),
-        Err(e) => actix_resp(e).await,
+        Err(e) => {
+            // "the rejection carries exactly the deserr error"
+            let carried = e.as_error::<JsonError>().map(|j| j.to_string());
+            match actix_resp(e).await {
+                Obs::Rejected(400, c, b) if carried.is_some() && carried.as_deref() != std::str::from_utf8(&b).ok() => {
+                    Obs::Rejected(400, c, [b, b" <but the carried JsonError reads differently>".to_vec()].concat())
+                }
+                o => o,
+            }
+        }
     };
     // the reference: the framework's own extractor on an identical request, then deserr
     let (req, mut pl) = actix_req(r);
@@ -96,7 +184,8 @@ async fn actix_json<T: Deserr<JsonError> + ToModel + 'static>(r: &Req) -> (Obs, 
         Err(e) => (actix_resp(e).await, Class::FrameworkRejection),
         Ok(doc) => match deserr::deserialize::<T, _, JsonError>(doc.into_inner()) {
             Ok(v) => (Obs::Ok(v.to_model()), Class::WellTyped),
-            Err(e) => (Obs::Rejected(400, Some("text/plain".into()), e.to_string().into_bytes()), Class::DeserrFailure),
+            // JsonError's own ResponseError: 400, text/plain (exactly), the message
+            Err(e) => (Obs::Rejected(400, Some("=text/plain".into()), e.to_string().into_bytes()), Class::DeserrFailure),
         },
     };
     (got, want, class)
@@ -178,7 +267,14 @@ fn same(got: &Obs, want: &Obs) -> bool {
         (Obs::Ok(a), Obs::Ok(b)) => a == b,
         (Obs::Rejected(s1, c1, b1), Obs::Rejected(s2, c2, b2)) => {
             // content type is compared only where the reference names one
-            s1 == s2 && b1 == b2 && (c2.is_none() || c1.as_deref().map(|c| c.starts_with(c2.as_deref().unwrap())).unwrap_or(false))
+            let ct_ok = match c2.as_deref() {
+                None => true,
+                Some(want) => match want.strip_prefix('=') {
+                    Some(exact) => c1.as_deref() == Some(exact),
+                    None => c1.as_deref().map(|c| c.starts_with(want)).unwrap_or(false),
+                },
+            };
+            s1 == s2 && b1 == b2 && ct_ok
         }
         _ => false,
     }
@@ -227,7 +323,21 @@ fn test(case: &Case, stats: Option<&mut Stats>) -> Verdict {
                     _ => (actix_json::<Vec<Point>>(&req).await, axum_json::<Vec<Point>>(&req).await),
                 }
             });
-            vec![("actix-json", a.0, a.1, a.2), ("axum-json", x.0, x.1, x.2)]
+            let (a2, x2) = block(async {
+                match t {
+                    0 => (actix_json_tea::<Point>(&req).await, axum_json_tea::<Point>(&req).await),
+                    1 => (actix_json_tea::<Strict>(&req).await, axum_json_tea::<Strict>(&req).await),
+                    2 => (actix_json_tea::<Camel>(&req).await, axum_json_tea::<Camel>(&req).await),
+                    3 => (actix_json_tea::<Shape>(&req).await, axum_json_tea::<Shape>(&req).await),
+                    _ => (actix_json_tea::<Vec<Point>>(&req).await, axum_json_tea::<Vec<Point>>(&req).await),
+                }
+            });
+            vec![
+                ("actix-json", a.0, a.1, a.2),
+                ("axum-json", x.0, x.1, x.2),
+                ("actix-json/custom-error", a2.0, a2.1, a2.2),
+                ("axum-json/custom-error", x2.0, x2.1, x2.2),
+            ]
         }
         "query" => {
             let qs = String::from_utf8_lossy(&req.body).to_string();
@@ -386,7 +496,7 @@ fn main() {
         tier,
         "cases = requests: JSON bodies (well-typed for the target / ill-typed / arbitrary documents / malformed by truncation or byte flip / empty) x content types (application/json, charset and +json variants, upper case, text/plain, look-alike, absent) \
          for targets Point, Strict, Camel, Shape, Vec<Point> through AwebJson and AxumJson; query strings (well-formed, repeated keys, percent-escapes, malformed escapes, empty keys/values, unknown keys) through AwebQueryParameter (from_request and from_query); \
-         oracle (differential): extractor outcome == the framework's own Json<Value> / Query<Value> extractor on an identical request composed with deserr::deserialize: equal values; or status 400 with the JsonError text as body (actix: text/plain); or the framework's rejection with identical status and body; \
+         oracle (differential): extractor outcome == the framework's own Json<Value> / Query<Value> extractor on an identical request composed with deserr::deserialize: equal values; or status 400 with the JsonError text as body (actix: exactly text/plain, and the actix error downcasts to the very JsonError); or the framework's rejection with identical status and body; the same with a custom error type whose HTTP rendering is 422 + a JSON body (an extractor that rebuilds the rejection from the error's text instead of carrying the error shows up); \
          non-trivial = the case is a deserr failure or a framework rejection, or a large well-typed document; distinct by (extractor, request)",
     );
     let known = open_known("C20");
